@@ -242,6 +242,16 @@ def fam_recfile(rng, layout, d, i):
             kw = {} if delim is None else {"delim": delim}
             guard("sfile.write", {"data": t}, lambda: sfile.write(p, t, header={"a": 1}, **kw), opt)
             guard("sfile.write(append)", {"data": t}, lambda: sfile.write(p, t, append=True, **kw), opt)
+            # an append the file must refuse - the same fields under names that differ in letter case only: the table
+            # (and a copy of it made earlier, which shares the dtype object) must come back untouched whether or not the
+            # request is refused
+            sw = [n.swapcase() for n in t.dtype.names]
+            if sw != list(t.dtype.names) and len(set(sw)) == len(sw) and t.ndim == 1:
+                tc = np.zeros(t.shape, dtype=[(m,) + tuple(dd[1:]) for m, dd in zip(sw, t.dtype.descr)])
+                for m, n0 in zip(sw, t.dtype.names):
+                    tc[m] = t[n0]
+                tc_before = tc.copy()
+                guard("sfile.write(append)", {"data": tc, "copy-made-before": tc_before}, lambda: sfile.write(p, tc, append=True, **kw), opt + ",names-differ-in-case")
 
             def f_sf():
                 with sfile.SFile(p, "w", **kw) as sf:
